@@ -28,6 +28,7 @@ SEEN = {}
 STATS = {"callables-wrapped": 0}
 SHADOWED = set()
 DIR = None
+OPTION_PROBE = False
 PER_KEY = int(os.environ.get("VERIF_FORMS_PER_KEY", "2"))
 MAX_ELEMS = 6000
 SLOW = float(os.environ.get("VERIF_FORMS_SLOW", "0.05"))
@@ -52,6 +53,40 @@ def _params(name, orig):
             p = []
         _PARAMS[name] = p
     return p
+
+
+_DROP = {}
+
+
+def _droppable(name, orig, kwargs):
+    if not kwargs:
+        return ()
+    info = _DROP.get(name)
+    if info is None:
+        try:
+            ps = inspect.signature(orig).parameters
+            info = (set(k for k, v in ps.items() if v.default is not inspect._empty), any(v.kind == v.VAR_KEYWORD for v in ps.values()),
+                    set(k for k, v in ps.items() if v.default is inspect._empty and v.kind in (v.POSITIONAL_OR_KEYWORD, v.KEYWORD_ONLY)))
+        except Exception:
+            info = (set(), False, set())
+        _DROP[name] = info
+    withdef, varkw, required = info
+    out = []
+    for k, v in kwargs.items():
+        if k in required:
+            continue
+        # data arrays handed over by keyword (acc=, gyr=, mag=, q0=, DCM=, rpy= ...) are the call's input, not options
+        if isinstance(v, np.ndarray) and v.size > 4:
+            continue
+        if k in DATA_KEYWORDS:
+            continue
+        if k in withdef or varkw:
+            out.append(k)
+    return tuple(sorted(out))
+
+
+DATA_KEYWORDS = {"acc", "gyr", "mag", "q0", "q", "dcm", "DCM", "rpy", "angles", "axang", "euler", "x", "y", "z", "quaternions", "date", "latitude",
+                 "longitude", "height", "w0", "b0", "P", "num_samples", "random"}
 
 
 def _kind(a):
@@ -184,10 +219,12 @@ def _shadow(name, orig, mode, args, kwargs):
         if k:
             slots.append(("k", kname, k))
     slots = slots[:4]
-    if not slots:
+    # options: keyword arguments the callable has a default for (or takes through **kwargs) -- the call could have been made without them
+    drop = _droppable(name, orig, kwargs) if (PROP != "C19" and OPTION_PROBE) else ()
+    if not slots and not drop:
         return orig(*args, **kwargs)
     kinds = tuple(s[2] for s in slots)
-    key = (name, kinds)
+    key = (name, kinds, drop)
     n = SEEN.get(key, 0)
     if n >= PER_KEY:
         return orig(*args, **kwargs)
@@ -203,8 +240,50 @@ def _shadow(name, orig, mode, args, kwargs):
         except Exception:
             _emit("count", "internal-errors")
             return orig(*args, **kwargs)
+        # spec/OptionScope.tla: the same call WITHOUT its options, made before and after the check's own call (on copies of the state
+        # before it), answers bit for bit the same: options are used for the call they are given to and nothing else
+        plain_before = None
+        if drop:
+            def plain():
+                a2 = [copy.deepcopy(a) for a in p_args]
+                k2 = {k: copy.deepcopy(v) for k, v in p_kw.items() if k not in drop}
+                np.random.set_state(rs)
+                if mode == "fn":
+                    return (_sig(orig(*a2, **k2)), None, None)
+                if mode == "method":
+                    s2 = _snap(p_self)
+                    r = orig(s2, *a2, **k2)
+                    return (_sig(r), _sig(np.asarray(s2)) if isinstance(s2, np.ndarray) else None, None)
+                if mode == "new":
+                    return (_sig(orig(args[0], *a2, **k2)), None, None)
+                s2 = object.__new__(type(args[0]))
+                orig(s2, *a2, **k2)
+                return (_sig(None), None, _sig(s2))
+            try:
+                t1 = time.perf_counter()
+                plain_before = plain()
+                if time.perf_counter() - t1 > SLOW:
+                    plain_before = None
+            except Exception:
+                plain_before = None          # the call needs its options
+            finally:
+                np.random.set_state(rs)
         t0 = time.perf_counter()
         ret = orig(*args, **kwargs)          # the check's own call: exceptions propagate to the check
+        if plain_before is not None:
+            try:
+                rs_keep = np.random.get_state()
+                plain_after = plain()
+                np.random.set_state(rs_keep)
+                _emit("count", "option-scope-probes")
+                if not all((p_ is None and q_ is None) or (p_ is not None and q_ is not None and _same(p_, q_, True)) for p_, q_ in zip(plain_before, plain_after)):
+                    _emit("finding", ("%s|options|%s|%s|call-without-options-answers-differently-after-a-call-with-options" % (PROP, name, ",".join(drop)),
+                                      {"callable": name, "options-of-the-other-call": {k: repr(p_kw[k])[:120] for k in drop},
+                                       "before": repr(plain_before)[:500], "after": repr(plain_after)[:500]}))
+            except Exception:
+                _emit("count", "option-scope-probe-raises-after-the-call")
+        if not slots:
+            return ret
         if time.perf_counter() - t0 > SLOW:
             _emit("count", "calls-too-slow-to-repeat")     # long filter runs are not repeated a dozen times
             return ret
@@ -357,6 +436,13 @@ def activate(chk):
         chk.fail("%s|spec|ArgumentForms|%s" % (chk.pid, res.violated), {"tlc": res.output[-2000:]})
     for r in res.out_records:
         TABLE[tuple(r["kinds"])] = [tuple(fv) for fv in r["forms"]]
+    global OPTION_PROBE
+    res2 = tlc.run_tlc("MC_OptionScope", core.spec_cfg("MC_OptionScope"), timeout=600)
+    chk.add_tlc("OptionScope[schedules of <= 3 calls]", res2)
+    if res2.violated:
+        chk.fail("%s|spec|OptionScope|%s" % (chk.pid, res2.violated), {"tlc": res2.output[-2000:]})
+    # the schedule the layer replays around every call that is given options: plain, given, plain
+    OPTION_PROBE = any(list(r["calls"]) == ["plain", "given", "plain"] for r in res2.out_records)
     global DIR
     import tempfile
     DIR = tempfile.mkdtemp(prefix="ahrs-verif-forms-")
@@ -407,4 +493,5 @@ def collect(chk):
     note["callables-shadowed"] = sorted(names)
     note["callables-left-alone-because-the-control-call-does-not-reproduce"] = sorted(unrep)
     note["rule"] = ("spec/ArgumentForms.tla: the first %d top-level calls of every public callable per process and kind vector are repeated with the same "
-                    "values in every form vector TLC enumerated; answers compared with the check's own call (1e-9 relative), after a bit-exact control" % PER_KEY)
+                    "values in every form vector TLC enumerated; answers compared with the check's own call (1e-9 relative), after a bit-exact control; "
+                    "spec/OptionScope.tla: a call given options is bracketed by the same call without them (schedule plain, given, plain), which must answer bit for bit the same" % PER_KEY)
